@@ -340,6 +340,9 @@ class Gen:
             if kind == 'elem':
                 el = self.elem(ints, cid, depth)
                 fields.append({'move': mv, 'body': ('elem', el)})
+                if el[0] == 'refpkt' and mv is None:
+                    # how the reference is written: Ref(K) / the bare class K / an instance K(..) -- the builder turns the last two into Ref
+                    fields[-1]['spell'] = rng.choice(['ref', 'ref', 'class', 'instance'])
                 if el[0] == 'leaf' and el[1][0] == 'int' and el[1][1] <= 2 and not el[1][2]:
                     ints.append(i)
                     if el[1][1] == 2:
